@@ -53,6 +53,9 @@ func (p *Unsuback) Unpack(r io.Reader) error {
 		return err
 	}
 	if IsVersion3X(p.Version) {
+		if bufr.Len() != 0 { // a v3 UNSUBACK has no payload
+			return codes.ErrMalformed
+		}
 		return nil
 	}
 
